@@ -4,6 +4,7 @@ import (
 	"fmt"
 	"go/token"
 	"go/types"
+	"sort"
 	"strings"
 
 	"golang.org/x/tools/go/ssa"
@@ -59,12 +60,12 @@ type zfn struct {
 	convExact map[*ssa.Convert]bool
 	addBusy   map[*ssa.BinOp]bool
 	addExact  map[*ssa.BinOp]bool
-	w     *zworld
-	fn    *ssa.Function
-	facts []anchoredFact
-	seen  map[string]bool             // atoms whose defining facts were generated
-	mem   map[ssa.Instruction]memCell // load instruction -> value at that point
-	fresh int
+	w         *zworld
+	fn        *ssa.Function
+	facts     []anchoredFact
+	seen      map[string]bool             // atoms whose defining facts were generated
+	mem       map[ssa.Instruction]memCell // load instruction -> value at that point
+	fresh     int
 	// memory epochs: invariant obligations to prove (buffer invariant at returns/calls)
 	invObl    []zobl
 	errOf     map[ssa.Value]*ssa.Call // error-typed Extract -> the call it comes from
@@ -1647,6 +1648,9 @@ func (z *zfn) provePhi(at ssa.Instruction, g lin, depth int, extra []lin) bool {
 		all := true
 		for i, e := range phi.Edges {
 			pred := phi.Block().Preds[i]
+			if z.edgeExcluded(phi, i, at) {
+				continue
+			}
 			var sub lin
 			switch {
 			case isLen:
@@ -1683,6 +1687,13 @@ func (z *zfn) provePhi(at ssa.Instruction, g lin, depth int, extra []lin) bool {
 					carry = append(carry, f)
 				}
 			}
+			// what is known at the end of the predecessor still holds once the path went through this edge
+			// (SSA values are not redefined on the way: loop-head phis are not split)
+			for _, f := range z.factsAt(last) {
+				if _, has := f.coef[name]; !has {
+					carry = append(carry, f)
+				}
+			}
 			// what this edge adds is also known further up the chain of phis
 			if iff, ok := last.(*ssa.If); ok {
 				if pred.Succs[0] == phi.Block() && pred.Succs[1] != phi.Block() {
@@ -1704,6 +1715,146 @@ func (z *zfn) provePhi(at ssa.Instruction, g lin, depth int, extra []lin) bool {
 		if all {
 			return true
 		}
+	}
+	if depth == 0 {
+		return z.provePhiInFacts(at, g)
+	}
+	return false
+}
+
+// provePhiInFacts: the goal does not mention a phi, but what is known at `at` ties it to one (n == len(b[:length])
+// with length a phi).  Split over that phi's edges, keeping every fact and adding phi == the edge's value.
+func (z *zfn) provePhiInFacts(at ssa.Instruction, g lin) bool {
+	base := z.factsAt(at)
+	names := map[string]bool{}
+	for _, f := range base {
+		for n := range f.coef {
+			if _, inGoal := g.coef[n]; !inGoal {
+				names[n] = true
+			}
+		}
+	}
+	var sorted []string
+	for n := range names {
+		sorted = append(sorted, n)
+	}
+	sort.Strings(sorted)
+	for _, name := range sorted {
+		isLen, isCap := false, false
+		vn := name
+		if strings.HasPrefix(name, "len#") {
+			vn, isLen = name[4:], true
+		} else if strings.HasPrefix(name, "cap#") {
+			vn, isCap = name[4:], true
+		}
+		if !strings.HasPrefix(vn, "v:") {
+			continue
+		}
+		var phi *ssa.Phi
+		for _, b := range z.fn.Blocks {
+			for _, in := range b.Instrs {
+				if p, ok := in.(*ssa.Phi); ok && p.Name() == vn[2:] {
+					phi = p
+				}
+			}
+		}
+		if phi == nil {
+			continue
+		}
+		if l := innermostLoop(loopsOf(z.fn), phi.Block()); l != nil && l.head == phi.Block() {
+			continue
+		}
+		if !(phi.Block() == at.Block() || phi.Block().Dominates(at.Block())) {
+			continue
+		}
+		all, any := true, false
+		for i, e := range phi.Edges {
+			if z.edgeExcluded(phi, i, at) {
+				continue
+			}
+			any = true
+			pred := phi.Block().Preds[i]
+			var sub lin
+			switch {
+			case isLen:
+				sub = z.lenOf(e, 0)
+			case isCap:
+				sub = z.capOf(e, 0)
+			default:
+				sub = z.term(e)
+			}
+			last := pred.Instrs[len(pred.Instrs)-1]
+			facts := append([]lin{}, z.factsAt(last)...)
+			if iff, ok := last.(*ssa.If); ok {
+				if pred.Succs[0] == phi.Block() && pred.Succs[1] != phi.Block() {
+					facts = append(facts, z.condFacts(iff.Cond, true)...)
+				} else if pred.Succs[1] == phi.Block() && pred.Succs[0] != phi.Block() {
+					facts = append(facts, z.condFacts(iff.Cond, false)...)
+				}
+			}
+			facts = append(facts, z.factsAt(at)...)
+			facts = append(facts, leq(linVar(name), sub, 0), leq(sub, linVar(name), 0))
+			if !entails(facts, g) && !z.provePhi(at, g, 1, facts) {
+				all = false
+				break
+			}
+		}
+		if all && any {
+			return true
+		}
+	}
+	return false
+}
+
+// edgeExcluded: `at` is reached from phi's block only under a nil test of a sibling phi (one of the same block)
+// whose value on edge i decides the test the other way: the value phi takes on that edge does not arrive at `at`.
+// This is what a (value, error) pair looks like once the function that returned it has been inlined: both are phis
+// of the join, and the caller's `if err != nil { return }` selects the edges that carried a nil error.
+//
+// Sound in loops as well: the phi block dominates the test's block, which dominates `at`, and the successor taken is
+// entered through that edge only, so the last execution of the test before `at` follows the last execution of the
+// phi block and sees the sibling's value of that execution.
+func (z *zfn) edgeExcluded(phi *ssa.Phi, i int, at ssa.Instruction) bool {
+	pb := phi.Block()
+	pred := pb.Preds[i]
+	last := pred.Instrs[len(pred.Instrs)-1]
+	for cur := at.Block(); cur != nil && cur != pb; {
+		id := cur.Idom()
+		if id == nil || !(id == pb || pb.Dominates(id)) {
+			break
+		}
+		if iff, ok := id.Instrs[len(id.Instrs)-1].(*ssa.If); ok {
+			t, f := id.Succs[0], id.Succs[1]
+			truth, have := false, false
+			if t != f {
+				if (t == cur || t.Dominates(cur)) && edgeOnly(id, t) {
+					truth, have = true, true
+				} else if (f == cur || f.Dominates(cur)) && edgeOnly(id, f) {
+					truth, have = false, true
+				}
+			}
+			if bo, ok := iff.Cond.(*ssa.BinOp); have && ok && (bo.Op == token.EQL || bo.Op == token.NEQ) {
+				x, y := bo.X, bo.Y
+				if isNilConst(x) {
+					x, y = y, x
+				}
+				if q, ok := x.(*ssa.Phi); ok && isNilConst(y) && q.Block() == pb && q != phi && len(q.Edges) == len(phi.Edges) {
+					wantNil := (bo.Op == token.EQL) == truth
+					ev := q.Edges[i]
+					switch {
+					case isNilConst(ev):
+						if !wantNil {
+							return true
+						}
+					case definitelyNonNil(ev, last):
+						if wantNil {
+							return true
+						}
+					}
+				}
+			}
+		}
+		cur = id
 	}
 	return false
 }
